@@ -43,8 +43,8 @@ const (
 	phRootValue = iota
 	phObjKeyOrEnd
 	phObjKey
-	phKey        // inside a key string
-	phAfterKeyQ  // key string closed, key-end not yet emitted
+	phKey       // inside a key string
+	phAfterKeyQ // key string closed, key-end not yet emitted
 	phColon
 	phObjValue
 	phLiteral
